@@ -20,6 +20,7 @@ type loop struct {
 	pos     token.Pos
 	// range-over-slice/int loops: the hidden index alloc and the bound
 	rangeIdx *ssa.Alloc
+	stmtPos, stmtEnd token.Pos // extent of the for/range statement
 	rangeLen ssa.Value
 }
 
@@ -128,6 +129,7 @@ func analyzeLoops(fn *ssa.Function) *loopInfo {
 			if best >= 0 {
 				lp.ordinal = best + 1
 				lp.label = stmts[best].label
+				lp.stmtPos, lp.stmtEnd = stmts[best].pos, stmts[best].end
 			}
 		}
 	}
